@@ -45,7 +45,8 @@ CLAIMED["C17"] = {
           "C17_caret_lf/cr (caret offset = column minus trimmed blanks) for every file and position; axiom-free. Tie: every content over {a,space,tab,LF,CR} up to length 5 (quick) / 7 "
           "(thorough) x every position and random long-line files, library vs extracted model vs an independent python oracle. Position half - PARTIAL: the JSON parse-error position "
           "(first byte that cannot continue the text, last byte when truncated) is compared with an independent LL(1) parser and with the Coq scanner model on exhaustive / truncated / "
-          "mutated texts; the viable-prefix theorem for the scanner model and validation-error positions are not proved yet (validation positions are not yet checked).",
+          "mutated texts, and validation-error positions are checked for planted unknown keys and wrong-kind values at every nesting position (position = start of the key / value); "
+          "the viable-prefix theorem for the scanner model is not proved.",
   "note": "Trusted: Coq kernel; extraction; harness parsing of Error() text; python oracle (lib/check_c17.py) for line/caret on uniform files and lib/jsonref.py for positions. "
           "Files mixing CR and LF irregularly are only covered by totality. The renderer defect (negative caret count) was fixed in c5cac3c.",
   "technique": "Coq proofs about the renderer model (bounds, line number, line text, caret for all files/positions) + exhaustive small-file correspondence; sampled differential check of parse-error positions",
@@ -167,7 +168,8 @@ CLAIMED["C14"] = {
           "when doc ends in a bracket or quote - Len(doc ++ sep ++ c :: rest) succeeds and equals the length of doc without trailing blanks), C14_len_of_document_alone, "
           "C14_len_error_when_no_document (Len fails whenever the text does not begin with a complete value), C14_doc_len_verdict (Len errs exactly when Check errs). Tie: generated accepted "
           "documents x 13 separators x 20 trailing texts from a directive-like alphabet, the prefix re-scanned to the same event stream, malformed prefixes for the error side; library vs "
-          "extracted model vs expected length. PARTIAL: the schema-scanner and enum-scanner halves of C14 have no model yet and are not checked by this revision.",
+          "extracted model vs expected length. The schema-scanner and enum-scanner halves have no Coq model: they are decided through the API (generated schemas / enum rules x separators x trailing texts, "
+          "Len = length without trailing blanks) - PARTIAL for those halves.",
   "note": "Trusted: Coq kernel; extraction; the generator. Two defects were found and fixed: Len one byte short before a directly following foreign byte (1915ee1) and Len of an empty document returning "
           "0 without error (8a6afee).",
   "technique": "Coq proof of Len = document length on the JSON scanner model (event spans + end-of-input rule) + generated S x separator x trailing-text correspondence (JSON half; schema/enum halves not covered)",
@@ -181,7 +183,33 @@ CLAIMED["C18"] = {
   "note": "Trusted: Coq kernel; extraction; python re as oracle on a common regex subset; Go regexp for 'Example matches P'. No Coq model of the enum scanner: the enum half is differential.",
   "technique": "Coq proof of the /P/ token extraction + differential checks named-vs-inline for enum rules and regex types (partial)",
 }
-NOT_APPLICABLE = {
- "C13": "checked (bin/check C13: equality of Check verdict, AST and validation verdicts across random compositions of the listed schema/document rewrites) but not yet claimed: no theorem about the "
-        "schema scanner's respelling invariance exists in this revision, so the proof technique does not yet decide it; document half is covered by C05/C06 theorems + C01",
+CLAIMED["C11"] = {
+  "text": "Proved on the model of the public objects' caching and pooling (Api/Objects.v; the pure functions behind the operations are universally quantified): C11_history_independent - after ANY "
+          "history of operations on any objects, an operation returns the pure function of its object's source, and every once-cell holds that value; C11_same_as_fresh; "
+          "C11_returned_values_stable - with an adversarial sync.Pool (any pooled buffer or a fresh one), values handed to the caller by the repaired Example() never change; C11_alias_refuted - "
+          "the pre-fix variant (returning the pooled buffer) does change them. PARTIAL: that the real operations ARE pure functions of the source (no hidden state, no map-order dependence) is "
+          "checked by histories of up to 12 operations over pools of schemas/documents/enum/regex objects, each result compared with the same operation on fresh objects, every history run 3 times "
+          "(Go randomises map order per run), and every handed-out value re-rendered after the whole history. Forced iteration orders per range-over-map site are not implemented.",
+  "note": "Trusted: Coq kernel; the abstraction of once-cells and the pool; the history harness. Four defects were found and fixed (pooled Example buffer, exhausted Document, map-order dependent Check "
+          "error, advancing regex generator).",
+  "technique": "Coq invariant proof over operation histories (once-cells, adversarial buffer pool) + history-vs-fresh-object differential runs repeated for map-order sampling",
 }
+CLAIMED["C12"] = {
+  "text": "Proved on the once-cell state machine (goroutines interleaved at sync.Once's critical steps): C12_once_at_most_once (in every schedule the protected body runs at most once), "
+          "C12_once_same_result (every goroutine that returns gets the body's result), C12_once_exactly_once_when_done, C12_once_can_finish; together with C11_history_independent this gives "
+          "'every call returns what it returns sequentially' at the model level. PARTIAL by nature: real data races, the Go memory model and the scheduler cannot be exhibited by a Gallina "
+          "model; they are observed by a -race stress (8/16 goroutines quick, 2..32 thorough; random mixes of Check/Validate/Len/Example/GetAST/UsedUserTypes on shared schemas re-created every "
+          "round, private schemas created concurrently, optionally from the same user-type objects), every result compared with the sequential oracle.",
+  "note": "Trusted: Coq kernel; that internal/sync ErrOnce is sync.Once + a stored value (not checked from source); the race detector. Fixed: Example() pool race (12828dc). Known finding: shared type "
+          "objects + allOf compiled concurrently.",
+  "technique": "Coq proof about the once-cell interleaving model + race-detector stress with sequential-oracle comparison (partial: races observed, not proved absent)",
+}
+CLAIMED["C13"] = {
+  "text": "PARTIAL. Proved (document half): C13_document_property_order / C13_shape_property_order (the validator model's verdict is invariant under permutation of an object's members), "
+          "C13_document_outer_whitespace and C13_any_layout_accepted (every layout of a well-formed value tree, with any blanks at the gaps and around it, is an accepted document). No theorem "
+          "for string escapes and for the schema half (line ends, indentation, comments, annotation forms, notes, quoted rule names, trailing comma, rule order): those are decided by equality of "
+          "Check verdict, AST (comments aside, rules as a set) and validation verdicts across random compositions of the rewrites on generated schemas, and of verdicts across re-spelled documents.",
+  "note": "Trusted: Coq kernel for the document-half theorems; lib/check_c13.py printers for the rest (intrinsic oracle: equality across spellings). Fixed: const compared raw tokens (9535bc2).",
+  "technique": "Coq theorems for document property order and whitespace + metamorphic check (equality across meaning-preserving respellings) for the schema half and string escapes (partial)",
+}
+NOT_APPLICABLE = {}
